@@ -148,3 +148,31 @@ CLAIMS['C15'] = dict(category='proof', ref='5 Core D, 8 C15',
     text='Lean 4 theorems over all programs and schedules of the repaired buffer: a mutex is held only inside its critical section (never by a returned thread), no lost wake-up (a parked waiter whose condition is met has a pending broadcaster), Close is a straight line of 7 own steps blocked only by a held mutex whose holder is enabled and releases within 3 steps, done exits every wait loop, a termination measure strictly decreasing with every enabled step (no livelock; at most mu(init) enabled steps in any schedule), and at quiescence every unfinished call waits legitimately (all returned once Close was called); scheduler fairness is the remaining hypothesis; tie as C14 with the lock probe compared after every step and a fair finish phase (Close, later calls) on the real buffer',
     technique='machine-checked proof in Lean 4 (invariants of a concurrent small-step program, for all schedules) + differential correspondence of schedules on the real buffer',
     note='Trusted: Lean kernel; axioms propext/Classical.choice/Quot.sound only; Go harness (model-guided scheduler at the verifYield marks) + line protocol + fact extractor; Go runtime semantics assumed by the model: sync.Mutex, sync.Cond, sequentially consistent atomics, scheduler fairness for liveness (see evidence.assumptions, NOTES-ring.md)')
+CLAIMS['C18'] = dict(category='other', ref='5 Core G, 8 C18',
+    text="WEAKEST CLAIM OF THE DESIGN - a proof about abstract traces plus a decidable check of an extracted table, tied to the compiled "
+         "program only by a lexical extractor. Proved in Lean 4: disciplined_trace_race_free (for ALL well-formed traces of "
+         "lock/unlock/RLock/RUnlock/read/write/atomic/fork/join/WaitGroup events - any length, any number of goroutines - a trace in which "
+         "every access is atomic on an all-atomic location, or made under the location's guard (exclusively for writes), or ordered by "
+         "fork/join (initialisation before publication, tear-down after the end), or a read of a location written only in those phases, "
+         "has no data race in the sense of the Go memory model), with non-vacuity examples (a disciplined trace, a racy one that violates "
+         "the discipline). The go/ast extractor regenerates on every run the ACCESS TABLE of the guarded state (MemTopics and its tries, "
+         "Ackqueue, Session, MemProvider, Server.svcs, service.conn/in/out/outtmp, the traffic counters, package-level variables written "
+         "after init): every `recv.field` access with the mutexes lexically held, helper functions judged by the meet over all their call "
+         "sites, references copied out of guarded structs. C18_table_disciplined_except_findings (by decide): every row obeys the "
+         "hand-written expectation guardOf EXCEPT the rows of the open findings G4 (provider registries written by every Client.Connect) and "
+         "G5 (Session.Cmsg/Will read by package service without Session.mu while a resumed session rewrites them); a removed lock, an access "
+         "moved out of its critical section or a new unguarded accessor breaks it. C18_escapes_recorded: the only references leaving a "
+         "critical section are the recorded ones (G1: Retained hands out pointers into storage that Retain rewrites in place - open). "
+         "C18_conforming_trace_race_free: a trace generated by the table is race-free on every covered location class; "
+         "C18_uncovered_are_recorded lists the classes left out. Repaired in the repository (fix: commits) and no longer excused: G2 (stop "
+         "cleared conn/in/out read elsewhere: nil dereference in writeMessage), G3 (Close/Count paths ignored the mutexes), G6 (traffic "
+         "counters read plainly), Session.ID, and getSession's unlocked read of Cmsg (nil while a concurrent CONNECT with the same client id "
+         "has created but not initialised the session: nil-pointer panic in the unrecovered accept goroutine, ending the broker). NOT proved: that the program's executions are traces generated by the table (no aliasing, no "
+         "reflection, closures by lexical position, trie-node ownership assumed); the check decides 'a lock was removed / an access left its "
+         "lock / a new unguarded accessor appeared', not arbitrary races. The Go race detector drives the real broker concurrently (raw "
+         "clients, session take-over, library clients, Server.Close, in-process Publish/Subscribe) to validate the table on the unchanged "
+         "tree - every report must belong to an open finding - and as the search when the table theorem breaks; it is never the proof.",
+    technique="Lean 4 proof over abstract synchronisation traces + decidable check of a regenerated (go/ast) access table; Go race detector as search and table validation",
+    note="Trusted: Lean kernel (axioms propext/Classical.choice/Quot.sound only); the lexical extractor extract/facts_locks.go IS the "
+         "translator from the program to the table and is not verified; the hand-written expectation table and exception list in "
+         "lean/Mqtt/Proofs/LocksTable.lean; the Go memory model as formalised in lean/Mqtt/Spec/Locks.lean; the race workload and report parser")
